@@ -285,6 +285,11 @@ def lean_stage(ctx: Ctx, H) -> dict:
     info["build_s"] = round(time.time() - t, 1)
     props_path = LEAN / H.PROPS_FILE
     names = theorem_names(props_path) if props_path.exists() else []
+    # further files of property theorems (e.g. heavy tables that a harness builds in the thorough tier only): every
+    # theorem in them is an obligation and is axiom-audited like those of PROPS_FILE
+    extra_props = [f for f in getattr(H, "EXTRA_PROPS_FILES", []) if (LEAN / f).exists()]
+    for f in extra_props:
+        names += [n for n in theorem_names(LEAN / f) if n not in names]
     info["theorems"] = names
     if rc != 0:
         tail = (out + err)[-3000:]
@@ -306,7 +311,8 @@ def lean_stage(ctx: Ctx, H) -> dict:
     # 4. axiom audit
     ns = getattr(H, "NAMESPACE", f"Ipv8.{ctx.prop}")
     mod = H.PROPS_FILE[:-5].replace("/", ".")
-    audit = f"import {mod}\nopen {ns}\n" + "".join(f"#print axioms {n}\n" for n in names)
+    audit = "".join(f"import {m}\n" for m in [mod] + [f[:-5].replace("/", ".") for f in extra_props]) + f"open {ns}\n" \
+        + "".join(f"#print axioms {n}\n" for n in names)
     ap = LEAN / ".audit" / f"{ctx.prop}.lean"
     write_if_changed(ap, audit)
     rc, out, err = sh(["lake", "env", "lean", str(ap)], cwd=LEAN, timeout=1200)
